@@ -106,6 +106,38 @@ func init() {
 			}
 			sb.WriteString("def " + p[2] + " : List String := " + LeanStrList(CallSeq(fd)) + "\n")
 		}
+		// CommitFamilyEditLog split at `vs.mutex.Lock()`: what a committer has called when it reaches the
+		// lock, and what it calls inside the critical section (the deferred Unlock runs at return, so
+		// everything after the Lock is under it). NextFileNumber: the allocation is under the same mutex.
+		{
+			seq := CallSeq(FindFunc(vs, "storeVersionSet", "CommitFamilyEditLog"))
+			at := len(seq)
+			for i, c := range seq {
+				if c == "mutex.Lock" {
+					at = i
+					break
+				}
+			}
+			// held from Lock to return: `defer vs.mutex.Unlock()` right after the Lock, no explicit Unlock later
+			held := at+1 < len(seq) && seq[at+1] == "defer:mutex.Unlock"
+			under := []string{}
+			if at < len(seq) {
+				under = seq[at+1:]
+			}
+			for _, c := range under {
+				if c == "mutex.Unlock" {
+					held = false
+				}
+			}
+			sb.WriteString("def commitBeforeLockCalls : List String := " + LeanStrList(seq[:at]) + "\n")
+			sb.WriteString("def commitUnderLockCalls : List String := " + LeanStrList(under) + "\n")
+			if held {
+				sb.WriteString("def commitLockHeldToReturn : Bool := true\n")
+			} else {
+				sb.WriteString("def commitLockHeldToReturn : Bool := false\n")
+			}
+			sb.WriteString("def nextFileNumberCalls : List String := " + LeanStrList(CallSeq(nfn)) + "\n")
+		}
 		// ---- flusher.go, store.go, family.go
 		_, fl, err := ParseFile(repo, "kv/flusher.go")
 		if err != nil {
